@@ -789,6 +789,15 @@ class ContextStateTransaction(_TransactionBase):
                   modified_handles: list[str],
                   adjust_version_counter: bool = True):
         """Insert or update a context state in mdib."""
+        # check all handles before registering any of them: a rejected call must not have a partial effect
+        for handle in modified_handles:
+            state_container = entity.states.get(handle)
+            if state_container is None:
+                if self._mdib.context_states.handle.get_one(handle, allow_none=True) is None:
+                    msg = f'invalid handle {handle}!'
+                    raise KeyError(msg)
+            elif not state_container.is_context_state:
+                raise ApiUsageError('Transaction only handles context states!')
         for handle in modified_handles:
             state_container = entity.states.get(handle)
             old_state = self._mdib.context_states.handle.get_one(handle, allow_none=True)
